@@ -77,6 +77,17 @@ def _gen_times(rng):
     return [None, base, base + 1, base + rng.choice([2, 7, HOUR, DAY]), base - rng.choice([1, DAY]), base + 400 * DAY]
 
 
+PAYLOADS = ["scalar", "scalar", "grid", "masked"]
+MEMS = [None, None, 0, "below", "huge"]
+
+
+def _gen_conv(rng, payload, k):
+    """per input: None (same units / grid), "km" / "mm" (compatible units), "flip" (grid differing only in
+    axes_increase), or both ("km+flip")"""
+    opts = [None, "km", "mm"] + (["flip", "flip", "km+flip"] if payload != "scalar" else [])
+    return [rng.choice(opts) if rng.random() < 0.7 else None for _ in range(k)]
+
+
 def _gen_so(rng):
     k = rng.choice([1, 1, 2, 3])
     times = _gen_times(rng)
@@ -94,7 +105,8 @@ def _gen_so(rng):
     if ["exch"] not in ops:
         ops.append(["exch"])
         ops.append(["get", 0, None, False])
-    return {"kind": "so", "k": k, "ops": ops}
+    payload = rng.choice(PAYLOADS)
+    return {"kind": "so", "k": k, "ops": ops, "payload": payload, "conv": _gen_conv(rng, payload, k), "mem": rng.choice(MEMS)}
 
 
 def _gen_si(rng):
@@ -114,7 +126,8 @@ def _gen_si(rng):
     if ["exch"] not in ops:
         ops.append(["exch"])
         ops.append(["pull", 0, None])
-    return {"kind": "si", "k": k, "ops": ops}
+    payload = rng.choice(PAYLOADS)
+    return {"kind": "si", "k": k, "ops": ops, "payload": payload, "conv": _gen_conv(rng, payload, k), "mem": rng.choice([None, None, 0])}
 
 
 def _dy(rng, small=False):
@@ -392,6 +405,19 @@ CORPUS = [
 ]
 
 
+# seeded mutants C20_c / C20_d: conversion on a static link must happen on EVERY read; a spilled first value
+# must not make a second publication acceptable
+CORPUS.append({"kind": "si", "k": 1, "payload": "scalar", "conv": ["km"], "mem": None,
+               "ops": [["exch"], ["push", 0], ["pull", 0, 0], ["pull", 0, DAY], ["pull", 0, None]]})
+CORPUS.append({"kind": "si", "k": 2, "payload": "masked", "conv": ["flip", "km+flip"], "mem": 0,
+               "ops": [["exch"], ["pull", 0, None], ["push", 0], ["pull", 0, 5], ["pull", 1, None], ["pull", 0, None], ["pull", 1, 7], ["push", 9], ["pull", 1, 7]]})
+CORPUS.append({"kind": "so", "k": 2, "payload": "scalar", "conv": [None, "mm"], "mem": 0,
+               "ops": [["exch"], ["push", 0], ["get", 0, None, False], ["push", DAY], ["get", 1, DAY, False], ["push", None], ["get", 0, 0, True]]})
+CORPUS.append({"kind": "so", "k": 1, "payload": "masked", "conv": ["km+flip"], "mem": "below",
+               "ops": [["exch"], ["push", None], ["push", None], ["get", 0, None, False], ["get", 0, 400 * DAY, False], ["get", 0, 0, True]]})
+CORPUS.append({"kind": "so", "k": 3, "payload": "grid", "conv": ["flip", None, "km"], "mem": "huge",
+               "ops": [["exch"], ["push", 0], ["push", 0], ["get", 0, None, False], ["get", 1, 5, False], ["get", 2, None, False]]})
+
 # seeded mutant C20_b: a time-stepped model publishes a static parameter next to its state; read by ordinary
 # (non-static) inputs of a time-stepped consumer, by a static input, and as static weight / value of a WeightedSum
 CORPUS.append(_net(
@@ -489,44 +515,141 @@ def _time(t):
     return None if t is None else T(t)
 
 
-def _run_so(case):
+GARBAGE = 4000  # a delivered value that is not the (converted) value of any publication
+
+
+def _static_grids():
+    g = fm.UniformGrid((3, 4))
+    gf = fm.UniformGrid((3, 4), axes_increase=[True, False])
+    return g, gf
+
+
+def _payload(kind, tok):
+    """the tok-th publication (units m, in the output's grid)"""
+    import numpy as np
+
+    if kind == "scalar":
+        return float(tok)
+    arr = np.arange(6, dtype=float).reshape(2, 3) + 100.0 * tok
+    if kind == "masked":
+        return np.ma.masked_array(arr, mask=[[False, True, False], [False, False, False]])
+    return arr
+
+
+def _expected(kind, tok, conv):
+    """what an input with conversion [conv] must receive for publication tok: (array, mask, unit name)"""
+    import numpy as np
+
+    arr = np.ma.asarray(_payload(kind, tok))
+    data = np.atleast_1d(np.ma.getdata(arr)).astype(float)
+    mask = np.atleast_1d(np.ma.getmaskarray(arr))
+    unit = "m"
+    for c in (conv or "").split("+"):
+        if c == "km":
+            data, unit = data / 1000.0, "km"
+        elif c == "mm":
+            data, unit = data * 1000.0, "mm"
+        elif c == "flip":
+            data, mask = np.flip(data, axis=1), np.flip(mask, axis=1)
+    return data, mask, unit
+
+
+def _decode(d, kind, conv, npush):
+    """token of the publication whose (converted) value was delivered, GARBAGE if none"""
+    import numpy as np
+
+    mag = np.ma.asarray(fin.magnitude(d))
+    data = np.ma.getdata(mag)
+    mask = np.ma.getmaskarray(mag)
+    if data.ndim >= 1 and data.shape[0] == 1:
+        data, mask = data[0], mask[0]
+    data, mask = np.atleast_1d(data), np.atleast_1d(mask)
+    for tok in range(1, npush + 1):
+        e, m, u = _expected(kind, tok, conv)
+        if e.shape != data.shape or not np.array_equal(m, mask):
+            continue
+        if fm.UNITS.Unit(u) != d.units:
+            continue
+        if np.allclose(np.where(m, 0.0, e), np.where(mask, 0.0, data), rtol=1e-12, atol=0.0):
+            return tok
+    return GARBAGE
+
+
+def _static_link(case, static_inputs):
+    """real static output + k inputs with the case's conversions, memory limit, notification counters"""
+    import tempfile
+
+    kind = case.get("payload", "scalar")
+    convs = case.get("conv") or [None] * case["k"]
+    g, gf = _static_grids()
     out = fm.Output(name="Out", static=True)
-    inputs = [fm.Input(name=f"In{i}") for i in range(case["k"])]
+    inputs = [fm.Input(name=f"In{i}", static=static_inputs) for i in range(case["k"])]
     for inp in inputs:
         out >> inp
     for inp in inputs:
         inp.ping()
-    out.push_info(fm.Info(time=None, grid=fm.NoGrid()))
+    out.push_info(fm.Info(time=None, grid=fm.NoGrid() if kind == "scalar" else g, units="m"))
+    infos = []
+    for c in convs:
+        parts = (c or "").split("+")
+        unit = "km" if "km" in parts else ("mm" if "mm" in parts else "m")
+        grid = fm.NoGrid() if kind == "scalar" else (gf if "flip" in parts else g)
+        infos.append(fm.Info(time=None, grid=grid, units=unit))
+    tmp = tempfile.mkdtemp(prefix="verif_c20_")
+    size = 8 if kind == "scalar" else 48
+    mem = case.get("mem")
+    limit = {None: None, 0: 0, "below": size - 1, "huge": 10**12}[mem]
+    out.memory_limit = limit
+    out.memory_location = tmp
+    notes = [0]
+    for inp in inputs:
+        real = inp.source_updated
+
+        def source_updated(time, real=real):
+            notes[0] += 1
+            return real(time)
+
+        inp.source_updated = source_updated
+    return out, inputs, infos, tmp, notes, kind, convs
+
+
+def _run_so(case):
+    import os
+    import shutil
+
+    out, inputs, infos, tmp, notes, kind, convs = _static_link(case, False)
     res = []
     npush = 0
-    for op in case["ops"]:
-        if op[0] == "exch":
-            for inp in inputs:
-                inp.exchange_info(fm.Info(time=None, grid=fm.NoGrid()))
-            res.append(["exch"])
-        elif op[0] == "push":
-            npush += 1
-            v = float(npush)
-            r = _res_of(lambda: out.push_data(v, _time(op[1])))
-            res.append(["push", npush, [r[0]]])
-        else:
-            inp = inputs[op[1]]
-            if op[3]:
-                r = _res_of(lambda: _tok(out.get_data(_time(op[2]), inp)))
+    try:
+        for op in case["ops"]:
+            if op[0] == "exch":
+                for inp, info in zip(inputs, infos):
+                    inp.exchange_info(info)
+                res.append(["exch", len(os.listdir(tmp)), notes[0]])
+            elif op[0] == "push":
+                npush += 1
+                v = _payload(kind, npush)
+                r = _res_of(lambda: out.push_data(v, _time(op[1])))
+                res.append(["push", npush, [r[0]], len(os.listdir(tmp)), notes[0]])
             else:
-                r = _res_of(lambda: _tok(inp.pull_data(_time(op[2]))))
-            res.append(["get", op[2], r])
-    return {"res": res}
+                inp = inputs[op[1]]
+                if op[3]:
+                    r = _res_of(lambda: _decode(out.get_data(_time(op[2]), inp), kind, None, npush))
+                else:
+                    r = _res_of(lambda: _decode(inp.pull_data(_time(op[2])), kind, convs[op[1]], npush))
+                res.append(["get", op[2], r, len(os.listdir(tmp)), notes[0]])
+        out.finalize()
+        left = len(os.listdir(tmp))
+    finally:
+        shutil.rmtree(tmp, ignore_errors=True)
+    return {"res": res, "files_after_finalize": left}
 
 
 def _run_si(case):
-    out = fm.Output(name="Out", static=True)
-    inputs = [fm.Input(name=f"In{i}", static=True) for i in range(case["k"])]
-    for inp in inputs:
-        out >> inp
-    for inp in inputs:
-        inp.ping()
-    out.push_info(fm.Info(time=None, grid=fm.NoGrid()))
+    import os
+    import shutil
+
+    out, inputs, infos, tmp, notes, kind, convs = _static_link(case, True)
     fetches = [0]
     real_get = out.get_data
 
@@ -537,19 +660,23 @@ def _run_si(case):
     out.get_data = get_data
     res = []
     npush = 0
-    for op in case["ops"]:
-        if op[0] == "exch":
-            for inp in inputs:
-                inp.exchange_info(fm.Info(time=None, grid=fm.NoGrid()))
-            res.append(["exch", fetches[0]])
-        elif op[0] == "push":
-            npush += 1
-            v = float(npush)
-            r = _res_of(lambda: out.push_data(v, _time(op[1])))
-            res.append(["push", npush, [r[0]], fetches[0]])
-        else:
-            r = _res_of(lambda: _tok(inputs[op[1]].pull_data(_time(op[2]))))
-            res.append(["pull", op[1], op[2], r, fetches[0]])
+    try:
+        for op in case["ops"]:
+            if op[0] == "exch":
+                for inp, info in zip(inputs, infos):
+                    inp.exchange_info(info)
+                res.append(["exch", fetches[0]])
+            elif op[0] == "push":
+                npush += 1
+                v = _payload(kind, npush)
+                r = _res_of(lambda: out.push_data(v, _time(op[1])))
+                res.append(["push", npush, [r[0]], fetches[0]])
+            else:
+                r = _res_of(lambda: _decode(inputs[op[1]].pull_data(_time(op[2])), kind, convs[op[1]], npush))
+                res.append(["pull", op[1], op[2], r, fetches[0]])
+        out.finalize()
+    finally:
+        shutil.rmtree(tmp, ignore_errors=True)
     return {"res": res}
 
 
@@ -1026,7 +1153,9 @@ def coq_case(case, obs):
                 ops.append(C("SPush", N(npush)))
             else:
                 ops.append(C("SGet", _optZ(op[2])))
-        return C("CaseSO", L(ops))
+        size = 8 if case.get("payload", "scalar") == "scalar" else 48
+        limit = {None: None, 0: 0, "below": size - 1, "huge": 10**12}[case.get("mem")]
+        return C("CaseSOM", N(case["k"]), _optZ(limit), Z(size), L(ops))
     if case["kind"] == "si":
         ops = []
         npush = 0
@@ -1083,13 +1212,14 @@ def coq_obs(case, obs):
     if case["kind"] == "so":
         out = []
         for r in obs["res"]:
+            fn = P(N(r[-2]), N(r[-1]))
             if r[0] == "exch":
-                out.append("XNone")
+                out.append(P("XNone", fn))
             elif r[0] == "push":
-                out.append(C("XPush", _coq_res_unit(r[2])))
+                out.append(P(C("XPush", _coq_res_unit(r[2])), fn))
             else:
-                out.append(C("XGet", _coq_res_tok(r[2])))
-        return C("ObsSO", L(out))
+                out.append(P(C("XGet", _coq_res_tok(r[2])), fn))
+        return C("ObsSOM", L(out))
     if case["kind"] == "si":
         out = []
         for r in obs["res"]:
@@ -1124,6 +1254,8 @@ def _mon_so(case, obs):
     exch = False
     held = None
     for op, r in zip(case["ops"], obs["res"]):
+        if held is not None and r[-1] != case["k"]:
+            return f"targets of a static output were notified {r[-1]} times for one accepted publication to {case['k']} target(s)"
         if op[0] == "exch":
             exch = True
         elif op[0] == "push":
